@@ -66,6 +66,10 @@ def oracle(case, resps):
         if resp.get("panic"):
             return (i, "handler panicked")
         st = resp["status"]
+        if st == -2:
+            break
+        if st == -1 or resp.get("status2") == -1:
+            return (i, "%s %s (or the listing after it) never returned (6 s): the API is wedged" % (q["method"], q["path"]))
         if st >= 400:
             segs = q["path"].strip("/").split("/")
             exception = st >= 500 and (segs[0] in ("populate", "reset") or (segs[0] == "proxies" and len(segs) == 2 and q["method"] in ("POST", "PATCH")))
@@ -168,6 +172,12 @@ def conflicting_creates(ctx):
             rounds += 1
             if rd.get("stuck"):
                 continue
+            sts = sorted(x["status"] for x in rd["batch"])
+            if sts.count(201) != 1 or any(x not in (201, 409) for x in sts):
+                fails.append(("duplicate-create-accepted",
+                              "round %d: %d creates of one proxy name released together were answered %s: duplicates yield 409, exactly one create succeeds"
+                              % (ri, len(sts), sts), {"kind": "failing-input", "conc": True, "case": c, "observed": rd}))
+                break
             for j, rq in enumerate(rd["batch"]):
                 addr = "127.0.0.1:%d" % c["ports"][j]
                 if rq["status"] >= 400 and (rd.get("probes") or {}).get(addr):
